@@ -608,7 +608,8 @@ def _arity(ctx):
         lits = {"cmp-len": set(), "slice-upper": set(), "index": set(), "range": set(), "mult": set()}
         for node in walk_shallow(f.node):
             if isinstance(node, ast.Compare) and len(node.ops) == 1:
-                for x_, y_ in ((node.left, node.comparators[0]), (node.comparators[0], node.left)):
+                cmp_ = util.expand_locals(ctx, f, node)  # `n = len(node); if n == 17`
+                for x_, y_ in ((cmp_.left, cmp_.comparators[0]), (cmp_.comparators[0], cmp_.left)):
                     if isinstance(x_, ast.Call) and ast.unparse(x_.func) == "len" and isinstance(y_, ast.Constant) and isinstance(y_.value, int) and y_.value > 2:
                         lits["cmp-len"].add(y_.value)
             if isinstance(node, ast.Subscript) and isinstance(node.slice, ast.Slice) and isinstance(node.slice.upper, ast.Constant) and node.slice.lower is None \
@@ -746,7 +747,7 @@ def ts5(ctx, pid):
         ctx.bad("proof-starts-empty:HexaryTrie._get_proof", f.loc(), "the accumulator default is `%s` (a mutable default would be shared between calls)" % (ast.unparse(lp_d) if lp_d is not None else None))
     # get_proof starts at the root with the full key
     g = H(ctx, "get_proof")
-    rets = {st.ret for p, st in pq.states(ctx, g) if p.exit[0] == "return"}
+    rets = pq.rets(ctx, g)
     w = ("call", f.qual, (("self",), ("call", HEX + ".get_node", (("self",), ("attr", ("self",), "root_hash")), ()),
                          ("call", NIB + "bytes_to_nibbles", (("p", "key"),), ())), ())
     if rets == {w}:
@@ -862,7 +863,7 @@ def route1(ctx, pid):
         else:
             ctx.bad("dunder:HexaryTrie.%s" % dn, d.loc(), "%s is not `%s(%s)`" % (dn, mn, ", ".join(d.params[1:])), rule="SIB1")
     ex = c_.methods["exists"]
-    rets = {st.ret for p, st in pq.states(ctx, ex) if p.exit[0] == "return"}
+    rets = pq.rets(ctx, ex)
     gk = ("call", HEX + ".get", (("self",), ("p", ex.params[1])), ())
     w = ("!=", gk, C(b""))
     tab = pq.bool_table(ctx, ex)
